@@ -314,19 +314,6 @@ def oracle_finalize(cases, impl):
         tr = impl.get(info["cid"])
         if not tr or tr[0].startswith("CTOR"):
             continue
-        prev = None
-        pending_endfwd = False
-        for i, l in enumerate(tr):
-            k, o, d = parse_line(l)
-            if k in ("O", "N", "F"):
-                if k == "F" and prev is not None:
-                    kk = int(info["ops"][sum(1 for x in tr[:i] if x[0] in "NF") if False else 0][1:]) if False else None
-                if k == "N" and pending_endfwd:
-                    if o != "Y:EF":
-                        out.append(fail("C10", info, line, "after a successful finalize the next action is %s, not EndForward" % o, "next_endforward"))
-                        break
-                    pending_endfwd = False
-                prev = d
         # second pass with op alignment: ops and N/F lines correspond one to one unless a run op is present
         if any(o[0] == "r" for o in info["ops"]):
             continue
@@ -357,11 +344,10 @@ def oracle_finalize(cases, impl):
                     out.append(fail("C10", info, line, "finalize(%d) with n=%s max_n=%s gave %s, expected %s" % (kk, state["n"], m0, got, exp), "finalize"))
                     break
             else:
-                if expect_ef and o.startswith("Y:") and o != "Y:EF":
-                    out.append(fail("C10", info, line, "after a successful finalize the next action is %s" % o, "next_endforward"))
+                if expect_ef and o != "Y:EF":   # a yield of something else, an exception or StopIteration
+                    out.append(fail("C10", info, line, "after a successful finalize the next request gives %s, not EndForward" % o, "next_endforward"))
                     break
-                if o.startswith("Y:"):
-                    expect_ef = False
+                expect_ef = False
             state = d
     return out
 
